@@ -140,6 +140,13 @@ def _guard(body, env, allow=()):
             if type(e).__name__ in allow and _in_repo(e):
                 env.obls.append(Obl('allowed_exception:%s' % type(e).__name__, 'unsat', 0.0, False, env.path_no))
                 return None
+            if isinstance(e, core.NaNProduced) and _in_repo(e):
+                label = 'no_nan'
+                r, vals = env.path_model()
+                env.obls.append(Obl(label, 'sat' if r == 'sat' else r, 0.0, True, env.path_no, detail=str(e)))
+                if r == 'sat':
+                    env.candidates.append(dict(label=label, values=vals, kind='nan', path=env.path_no))
+                return None
             if _from_engine(e) or not _in_repo(e):
                 raise core.Unsupported('engine error: %r\n%s' % (e, tb))
             label = 'no_exception:%s' % type(e).__name__
@@ -315,6 +322,8 @@ def report(prop, tier, seed, cases, results, replays, t_start, verbose):
         ok_labels = {lb} | set(aliases.get(lb, ()))
         if lb.startswith('no_exception'):
             same = [x for x in rr['failed'] if _base(x[0]).startswith('no_exception')]
+        elif lb == 'no_nan':
+            same = [x for x in rr['failed'] if 'nan' in str(x[1]).lower() or 'non-finite' in str(x[1]).lower()]
         else:
             same = [x for x in rr['failed'] if _base(x[0]) in ok_labels]
         reproduced = bool(same) and not rr['outside'] and not rr.get('error')
@@ -424,7 +433,7 @@ def report(prop, tier, seed, cases, results, replays, t_start, verbose):
             explanation=explanation,
             obligations=n_obl, discharged=n_dis,
             evaluations=max(queries, n_obl), distinct_nontrivial=n_nontriv,
-            rule='one solver obligation per output entry / per path; non-trivial = the negated goal is not syntactically false after z3.simplify',
+            rule='one obligation per output entry / per path; non-trivial = both sides are non-constant symbolic terms (decided by a z3 query, or by z3 normal-form identity of the terms of two executions); constant-vs-constant comparisons are not counted',
             samples=samples[:12],
             paths=paths, cases=[dict(name=c.name, bounds=c.bounds) for c in cases],
             functions_encoded=sorted(funcs), stubs=stubs_used,
